@@ -65,6 +65,32 @@ class _O:
         return len(self.v)
 
 
+class _Ops:
+    """a context object whose operators answer with a STRING carrying data (rich comparisons included)"""
+
+    def __init__(self, v):
+        self.v = v
+
+    def _r(self, *a, **k):
+        return self.v
+
+    __lt__ = __le__ = __gt__ = __ge__ = __eq__ = __ne__ = _r
+    __add__ = __radd__ = __sub__ = __rsub__ = __mul__ = __rmul__ = __mod__ = __rmod__ = _r
+    __truediv__ = __floordiv__ = __pow__ = __neg__ = __pos__ = __getitem__ = __call__ = _r
+    __hash__ = None
+
+    def __getattr__(self, name):
+        if name.startswith("__"):
+            raise AttributeError(name)
+        return self.v
+
+    def __contains__(self, item):
+        return True
+
+    def __str__(self):
+        return self.v
+
+
 def make_fn(payload):
     """a plain callable from the context (not a macro): returns DATA, optionally around what caller() renders"""
     def fn(*args, caller=None, **kw):
@@ -256,6 +282,10 @@ EXPRS = [
     "[[m, a], [b]]|map('join', c)|join('|')", "[m, a]|map('replace', 'o', b)|join(c)", "[a, m]|map('indent', b)|join", "[m]|map('join', a)|list",
     "[[a, b]]|map('join', m)|first", "[a, b]|map('e')|map('replace', 'o', c)|join", "[{'k': a}]|map('xmlattr')|join", "[a]|map('urlize')|join(b)",
     "[[m, a]]|map('join')|map('string')|join(b)", "[a, m]|map('truncate', 9, true, b)|join", "[m, a]|map('center', 30)|map('trim')|join(c)",
+    # operator results of data OBJECTS: rich comparisons and arithmetic dunders that return strings
+    "cmpo < a", "cmpo == b", "a > cmpo", "cmpo != a", "cmpo <= 1", "cmpo >= m", "(cmpo < a) ~ b", "cmpo + a", "a + cmpo", "cmpo * 2", "cmpo % a",
+    "-cmpo", "+cmpo", "cmpo[a]", "cmpo.attr", "cmpo(a)", "cmpo // 2", "cmpo ** 2", "cmpo - a", "cmpo / 2", "not cmpo", "cmpo in [a]", "a in cmpo",
+    "cmpo < a < b", "cmpo|string", "[cmpo < a, cmpo == a]|join(b)", "(cmpo == a)|upper", "cmpo is lt(a)", "[a, b]|select('lt', cmpo)|list",
     # failed lookups whose KEY is hostile data (the undefined object's text may name it), plain callables from the context
     "{'x': 1}[a]", "missing[a]", "{}[a][b]", "{}[a].x", "a.nope", "a[b]", "[1][a|length]", "{}[a]|default(b)", "({}[a] ~ b)", "{}[a]|string",
     "[{}[a], m]|join(b)", "{'k': {}[a]}|xmlattr", "fn()", "fn(a)", "fn(a) ~ b", "[fn(a), m]|join(c)", "fn(m)", "fn|string|length",
@@ -323,6 +353,11 @@ REGION_SHAPES = [
     ({"mode": "off", "templates": {"main.html": "{% autoescape ae_on %}{% with w = a %}{% block b scoped %}{{ w }}{{ EXPR }}{{ '<lIt>' }}{% endblock %}{% endwith %}{% endautoescape %}"}},
      "C15:block-inside-autoescape-region"),
     ({"mode": "off", "templates": {"main.html": "{% autoescape true %}{% for i in [a] %}{% block b scoped %}{% for j in [i, b] %}{% block c scoped %}{{ j }}{{ EXPR }}{% endblock %}{% endfor %}{% endblock %}{% endfor %}{% endautoescape %}"}},
+     "C15:block-inside-autoescape-region"),
+    ({"mode": "off", "templates": {"main.html": "{% if false %}{% block b %}{{ EXPR }}{{ a }}{% endblock %}{% endif %}x{% autoescape true %}[{{ self.b() }}]{% endautoescape %}"}},
+     "C15:block-inside-autoescape-region"),
+    ({"mode": "off", "templates": {"main.html": "{% if false %}{% block b %}{{ '<lIt>' }}{{ EXPR }}{% endblock %}{% block c %}{{ a }}{% endblock %}{% endif %}"
+                                                "{% autoescape ae_on %}{% for i in [1, 2] %}{{ self.b() ~ self.c() }}{% endfor %}{% endautoescape %}"}},
      "C15:block-inside-autoescape-region"),
     ({"mode": "off", "templates": {"main.html": "{% extends 'base.html' %}{% block b %}{{ EXPR }}{% endblock %}",
                                    "base.html": "{% autoescape true %}[{% block b %}{% endblock %}]{% endautoescape %}"}},
@@ -696,6 +731,7 @@ def run(ctx):
             src = PRELUDE + (wsrc % e)
             data = {n: value_kind(ctx.rng, ctx.rng.choice(words) + MARK) for n in "abc"}
             data["fn"] = make_fn(str(data["c"]))
+            data["cmpo"] = _Ops(str(data["b"]))
             for mode in MODES:
                 out = render_mode(jinja2, mode, {"main.html": src}, "main.html", data, axis=ctx.rng.choice(AXES), ctx=ctx)
                 n_expr += 1
